@@ -226,20 +226,39 @@ pub const ZSTD_COMPRESSION_LEVEL: i32 = 3;
 /// Represents the byte offset in a segment file up to which all data has been safely
 /// flushed to disk and can be read concurrently.
 #[derive(Clone, Debug)]
-pub struct FlushedOffset(Arc<AtomicU64>);
+pub struct FlushedOffset(Arc<FlushedOffsetInner>);
+
+#[derive(Debug)]
+struct FlushedOffsetInner {
+    offset: AtomicU64,
+    // Bumped whenever bytes below the flushed offset are rewritten in place (truncation,
+    // header replacement), so readers can drop what they buffered before
+    rewrites: AtomicU64,
+}
 
 impl FlushedOffset {
     pub(crate) fn new(offset: u64) -> Self {
-        FlushedOffset(Arc::new(AtomicU64::new(offset)))
+        FlushedOffset(Arc::new(FlushedOffsetInner {
+            offset: AtomicU64::new(offset),
+            rewrites: AtomicU64::new(0),
+        }))
     }
 
     pub(crate) fn set(&self, offset: u64) {
-        self.0.store(offset, Ordering::Release)
+        self.0.offset.store(offset, Ordering::Release)
     }
 
     /// Returns the current flushed offset value.
     pub fn load(&self) -> u64 {
-        self.0.load(Ordering::Acquire)
+        self.0.offset.load(Ordering::Acquire)
+    }
+
+    pub(crate) fn note_rewrite(&self) {
+        self.0.rewrites.fetch_add(1, Ordering::AcqRel);
+    }
+
+    pub(crate) fn rewrites(&self) -> u64 {
+        self.0.rewrites.load(Ordering::Acquire)
     }
 }
 
